@@ -5,13 +5,13 @@ package vm
 import "github.com/risor-io/risor/op"
 
 // VerifTrace, when non-nil, is called by eval before each instruction is dispatched, with
-// the id of the active code object, the slot position of the instruction, its opcode and the
-// operand stack pointer. It exists only in builds with `-tags verif` (verification harness
+// the id of the active code object, the slot position of the instruction, its opcode, the
+// operand stack pointer and the frame pointer. It exists only in builds with `-tags verif` (verification harness
 // in /verif) and must be set while no evaluation is running.
-var VerifTrace func(vm *VirtualMachine, codeID string, ip int, opcode op.Code, sp int)
+var VerifTrace func(vm *VirtualMachine, codeID string, ip int, opcode op.Code, sp int, fp int)
 
 func (vm *VirtualMachine) verifTrace(opcode op.Code) {
 	if f := VerifTrace; f != nil {
-		f(vm, vm.activeCode.ID(), vm.ip-1, opcode, vm.sp)
+		f(vm, vm.activeCode.ID(), vm.ip-1, opcode, vm.sp, vm.fp)
 	}
 }
